@@ -53,7 +53,8 @@ def cf_jobs(lps, tier, seed, ops=FULL_OPS, over=None, checks=None, invariants=No
             cb = dict(common)
             if tier == "quick":
                 cb["bindings"] = binds[:1]
-            jobs.append(dict(cb, name="%s%s-bfs%d" % (lp, tag, depth), consts=ecf.consts(lp, **o), mode="bfs"))
+            jobs.append(dict(cb, name="%s%s-bfs%d" % (lp, tag, depth), consts=ecf.consts(lp, **o), mode="bfs",
+                             timeout=3000 if tier == "thorough" else 900))
         if sims:
             n1, n2 = (400, 150) if tier == "thorough" else (100, 30)
             if tier == "quick":
@@ -281,6 +282,8 @@ def c14(report):
     for b in dict.fromkeys(bins):
         rewards = {0, 1} if b == "flip" else ({0, 2, 3} if report.tier == "thorough" else {2, 3})
         over = dict(InitBin=b, Rewards=rewards, NewBins={"keep", "flip" if b != "flip" else "thr"}, QueryRows={0})
+        if report.tier == "thorough" and b != "flip":
+            over["MaxDepth"] = 3          # three reward values: depth 4 is beyond TLC in the time allowed; the walks go deeper
         bj = cf_jobs(["ts"], report.tier, report.seed, over=over, tag="-" + b)
         for job in bj:        # integer-typed 0/1 rewards must be converted like any others
             if not any(x.get("dtype") == "int" for x in job["bindings"]):
